@@ -63,7 +63,7 @@ def tagged_state(r, lo=1, hi=8):
 
 
 def large_cases(r, n):
-    """a few LARGE worlds and views (well above the sizes of the shipped configurations: 30..40 cells a side, views of 25..33): whatever the
+    """a few LARGE worlds and views (well above the sizes of the shipped configurations: 30..40 cells a side, views of 25..41 rows): whatever the
     code does differently for big inputs is exercised; pose inside, on the edge and in the corner; centred and off-centre views"""
     out = []
     base = [o for o in gen.all_objects(depth=0) if o[0] != gen.TY['Floor']]
@@ -71,7 +71,7 @@ def large_cases(r, n):
         h, w = r.randint(30, 40), r.randint(30, 40)
         g = tuple(tuple(gen.FLOOR if r.random() < 0.6 else r.choice(base) for _ in range(w)) for _ in range(h))
         p, o = gen.rand_pose(r, h, w, edge_bias=0.5)
-        vh, half = r.choice([25, 27, 33]), r.choice([12, 13, 16])
+        vh, half = r.choice([(25, 12), (27, 16), (33, 16), (33, 16), (35, 17), (41, 13)])      # up to 1100..1400 cells in view
         area = (-(vh - 1), 0, -half, half) if r.random() < 0.7 else (-(vh - 5), 4, -half + 3, half + 3)
         out.append((area, (g, p, o, gen.rand_held(r))))
     return out
